@@ -115,6 +115,22 @@ pub fn run(run: &mut Run) {
                     }
                     judge(run, fam, fname, e, &mut env, &ctx, Some(present));
                 }
+                // the key supplied as a context variable instead of a literal
+                if fi == 1 {
+                    env.set("q", q.to_mv());
+                    let ctx2 = hosts::context_for(&env, &log);
+                    let qv = E::Var("q".into());
+                    for (fname, e) in [
+                        ("in-var", E::Bin("in", b(qv.clone()), b(m_expr.clone()))),
+                        ("contains-var", mcall(m_expr.clone(), "contains", vec![qv.clone()])),
+                        ("index-var", E::Index(b(m_expr.clone()), b(qv.clone()))),
+                    ] {
+                        if !run.take() {
+                            continue;
+                        }
+                        judge(run, fam, fname, &e, &mut env, &ctx2, Some(present));
+                    }
+                }
             }
         }
     }
